@@ -646,6 +646,27 @@ fn scale(tier: Tier, totals: &mut Totals) {
             ],
         );
     }
+    // contents whose first or last characters are the ones a reader or writer might treat specially
+    for (i, content) in ["\u{feff}héllo", "\u{feff}", "x\u{feff}", "\r\nx\r\n", "x\n", "\n", " ", "\t x \t", "\u{a0}x\u{3000}", "é", "#not a comment", "\"quoted\""].iter().enumerate() {
+        let text = format!(
+            "{}\nf = set \"{d}/special.txt\"\ng = set \"{d}/special-copy.txt\"\nw = writefile ${{f}} ${{c}}\nr = readfile ${{f}}\nsame = equals ${{r}} ${{c}}\nrl = length ${{r}}\nsize = get_file_size ${{f}}\ncp ${{f}} ${{g}}\nr2 = readfile ${{g}}\nsame2 = equals ${{r2}} ${{c}}\nappendfile ${{f}} ${{c}}\nr3 = readfile ${{f}}\nsame3 = equals ${{r3}} ${{c}}${{c}}\nrm ${{f}}\nrm ${{g}}",
+            crate::render::line(Some("c"), "set", &[content]),
+            d = d
+        );
+        crate::util::scale_case_totals(
+            totals,
+            &format!("special-content {}", i),
+            &text,
+            &[
+                ("w", Some("true".into())),
+                ("same", Some("true".into())),
+                ("rl", Some(content.len().to_string())),
+                ("size", Some(content.len().to_string())),
+                ("same2", Some("true".into())),
+                ("same3", Some("true".into())),
+            ],
+        );
+    }
     let _ = std::fs::remove_dir_all(&dir);
 }
 
@@ -677,7 +698,7 @@ pub fn replay(case: &Value) -> Result<String, String> {
     Ok(out.join("\n").replace(&d, "<scratch>"))
 }
 
-pub const RULE: &str = "explicit-state breadth-first search from the empty directory to a fixpoint: writefile / appendfile with 3 contents, write/read binary file, readfile, touch, mkdir, cp and mv for every ordered pair of paths, rm, rm -r, rmdir, is_path_exists, is_file, is_dir, get_file_size and a recursive glob_array listing, over the paths {a.txt, d, d/b.txt, (d/e/c.txt,) 's p/ü.txt'} and the directories d/e and 's p'; operations that would exceed the entry or size bound are disabled; operations the documentation does not fix in the current state (directory sources of cp/mv, mv onto itself, mv to a missing extension-less path, touch on a directory) are not generated. Each transition materialises the tree in a fresh scratch directory, runs the real command with absolute paths, snapshots the directory and compares output and the complete tree with the model (a failing operation must leave the tree unchanged). basename / dirname / join_path are swept separately (they do not depend on the tree). evaluations = transitions; distinct_nontrivial = distinct trees. Scale cases: write / read / size / cp / append / mv / overwrite with contents of 4095..65537 bytes (thorough: up to 5 MB), plain and with a two-byte character across the middle";
+pub const RULE: &str = "explicit-state breadth-first search from the empty directory to a fixpoint: writefile / appendfile with 3 contents, write/read binary file, readfile, touch, mkdir, cp and mv for every ordered pair of paths, rm, rm -r, rmdir, is_path_exists, is_file, is_dir, get_file_size and a recursive glob_array listing, over the paths {a.txt, d, d/b.txt, (d/e/c.txt,) 's p/ü.txt'} and the directories d/e and 's p'; operations that would exceed the entry or size bound are disabled; operations the documentation does not fix in the current state (directory sources of cp/mv, mv onto itself, mv to a missing extension-less path, touch on a directory) are not generated. Each transition materialises the tree in a fresh scratch directory, runs the real command with absolute paths, snapshots the directory and compares output and the complete tree with the model (a failing operation must leave the tree unchanged). basename / dirname / join_path are swept separately (they do not depend on the tree). evaluations = transitions; distinct_nontrivial = distinct trees. Scale cases: write / read / size / cp / append / mv / overwrite with contents of 4095..65537 bytes (thorough: up to 5 MB), plain and with a two-byte character across the middle; 12 short contents that start or end with a byte order mark, line breaks, blanks, TAB, no-break / ideographic space, '#', a quote (write / read / size / cp / append)";
 pub const ASSUMPTIONS: &[&str] = &["the scratch directory is on tmpfs (/dev/shm) or a local file system without symlinks, permissions left at their defaults", "the output of rm on a missing path and of cp onto itself is not compared (only the tree)"];
 pub const EXHAUSTIVE: bool = true;
 pub const WALL_CAP_S: (u64, u64) = (58, 1500);
